@@ -169,14 +169,29 @@ Theorem C02_archive_inside_root :
 Proof. exact archive_inside_root. Qed.
 Print Assumptions C02_archive_inside_root.
 
-(* never hidden, for archives: FALSE of the faithful model — the walker does not consult the
-   hide list (the archive of the root contains the Casketfile). *)
-Theorem C02_archive_never_hidden_refuted :
-  exists fs hide pages confs req archive ms k,
-  browse fs hide pages confs 0 req [] archive = Archive ms /\ In k ms /\
-  n_dir k = false /\ is_hidden fs hide k = true.
-Proof. exact archive_never_hidden_refuted. Qed.
-Print Assumptions C02_archive_never_hidden_refuted.
+(* never hidden, for archives: no member is hidden (in particular the archive of the root does not
+   contain the origin Casketfile, a file hidden through `internal`, or a hard link to one), and no
+   member lies below a hidden directory inside the archived one — the walker applies the IsHidden
+   test of the listing to every entry and does not descend into a hidden directory. *)
+Theorem C02_archive_never_hidden :
+  forall fs hide pages confs m req ae archive ms,
+  browse fs hide pages confs m req ae archive = Archive ms ->
+  forall k, In k ms ->
+    is_hidden fs hide k = false /\
+    (forall a, In a fs -> n_dir a = true -> is_desc (jail req) (n_path a) = true ->
+               is_desc (n_path a) (n_path k) = true -> is_hidden fs hide a = false).
+Proof. exact archive_never_hidden. Qed.
+Print Assumptions C02_archive_never_hidden.
+
+Example C02_archive_never_hidden_nonvacuous :
+  match browse fixture_fs gen_c02_hide gen_default_index_pages [{| b_scope := [SLASH]; b_types := gen_archive_types |}]
+               0 [SLASH] [] (bs "zip") with
+  | Archive ms => map (fun p => existsb (fun k => beq (n_path k) (bs p)) ms)
+                      ["/a.txt"; "/dir/sub/d.txt"; "/Casketfile"; "/links/hard-casket"; "/secret.txt"; "/hsib.txt.gz";
+                       "/hdir"; "/hdir/in.txt"]%string
+  | _ => []
+  end = [true; true; false; false; false; false; false; false].
+Proof. vm_compute. reflexivity. Qed.
 
 (* ---- redirects ------------------------------------------------------------------------------ *)
 (* Every redirect of the static file server (site without path prefix, rooted request path) is a
@@ -228,7 +243,8 @@ Theorem C02_site_sound :
                              is_hidden (s_fs s) (s_hide s) k = false
   | Archive ms =>
       forall k, In k ms -> In k (s_fs s) /\ is_desc (jail (q_path r)) (n_path k) = true /\
-                           has_prefix (n_path k) (jail (q_path r)) = true
+                           has_prefix (n_path k) (jail (q_path r)) = true /\
+                           is_hidden (s_fs s) (s_hide s) k = false
   | Redirect code loc =>
       rooted (q_path r) -> one_slash loc = true /\ same_origin loc = true
   | Status _ => True
